@@ -52,8 +52,33 @@ def run(ctx):
                 srcs.append(fmt_sym(b, F.sym_rvalue(d[3], 0)))
         good = [s_ for s_ in srcs if s_.startswith('VecDeque::remove(') and s_.rstrip(')').endswith(FIELD)]
         bad = [s_ for s_ in srcs if s_ not in good and 'None' not in s_]
-        if good and not bad:
-            r.ok(rule, 'find:returns-removed', 'the continuation point handed out is the one removed from the queue (or None)', loc=b.loc)
+        idx_ok = True; idx_txt = ''
+        for d in b.defs().get(0, []):
+            if d[0] == 'call' and d[2].callee.endswith('VecDeque::remove'):
+                idx_txt = fmt_sym(b, F.sym_operand(d[2].args[1]))
+                # the index must be the position of the match in a plain forward iteration of the same queue
+                idx_ok = False
+                if re.search(r'^Iterator::position\(.*\)@Some\.0$', idx_txt):
+                    for pc in [c for c in b.calls() if c.callee.endswith('Iterator::position')]:
+                        it = pc.args[0]
+                        root = it[1][0]
+                        for _ in range(4):
+                            ds = b.defs().get(root, [])
+                            if len(ds) == 1 and ds[0][0] == 'stmt' and ds[0][3][0] in ('ref', 'use'):
+                                pl = ds[0][3][2] if ds[0][3][0] == 'ref' else ds[0][3][1][1]
+                                root = pl[0]
+                            else:
+                                break
+                        ds = b.defs().get(root, [])
+                        if len(ds) == 1 and ds[0][0] == 'call' and ds[0][2].callee.endswith('VecDeque::iter') and \
+                                fmt_sym(b, F.sym_operand(ds[0][2].args[0])).endswith(FIELD):
+                            idx_ok = True
+                        else:
+                            idx_txt += ' over ' + (ds[0][2].callee if ds and ds[0][0] == 'call' else '?')
+        if good and not bad and not idx_ok:
+            r.fail(rule, 'find:index-provenance', 'the index given to remove() is not the position of the matching id in a forward iteration of the same queue: a different continuation point would be consumed', detail=idx_txt[:200], loc=b.loc)
+        elif good and not bad:
+            r.ok(rule, 'find:returns-removed', 'the continuation point handed out is the one removed from the queue (or None), at the index where its id matched', loc=b.loc)
         else:
             r.fail(rule, 'find:returns-removed', 'find_browse_continuation_point can return a continuation point that stays in the queue (reusable)', detail=str(srcs)[:200], loc=b.loc)
     # ---------------- (iii)
